@@ -21,7 +21,7 @@ var (
 	c09Depths = []int{0, 1, 2, 3, 5, 8, 12}
 	c09Nest   = []int{1, 2, 4, 8, 12, 70}
 	c09Locals = []int{0, 1, 3, 8}
-	c09Shapes = []string{"plain", "call-in-try", "early-return-in-loop", "break-in-loop", "throw-caught-per-iteration"}
+	c09Shapes = []string{"plain", "call-in-try", "early-return-in-loop", "break-in-loop", "throw-caught-per-iteration", "throw-with-pending-operands"}
 
 	c09CallLims  = []uint{1, 2, 3, 4, 6, 8, 12, 16, 100}
 	c09StackLims = []uint{1, 2, 4, 8, 16, 64, 500}
@@ -61,6 +61,11 @@ func c09Program(d, e, v int, shape string, n int) *hs.Program {
 	case "throw-caught-per-iteration":
 		funcs = append(funcs, hs.Fn("thrower", nil, hs.Blk(nil, hs.LetS("pad", hs.I(1)), hs.ES(hs.CallN("throw", hs.S("x"))))))
 		loopBody = []hs.Stmt{call, hs.ES(&hs.Try{Body: hs.Blk(nil, hs.ES(hs.CallN("thrower"))), Var: "e", Catch: hs.Blk(nil)})}
+	case "throw-with-pending-operands":
+		// the exception is raised and caught in the same function while operands of an enclosing
+		// expression are pending on the operand stack
+		thrown := &hs.If{Cond: hs.Bin(">=", hs.V("i"), hs.I(0)), Then: hs.Blk(hs.I(0), hs.ES(hs.CallN("throw", hs.S("x")))), Else: hs.Blk(hs.I(0))}
+		loopBody = []hs.Stmt{call, hs.ES(&hs.Try{Body: hs.Blk(nil, hs.LetS("t", hs.Bin("+", hs.Bin("+", hs.I(1), hs.I(2)), hs.Bin("*", hs.I(3), thrown))), hs.Println(hs.V("t"))), Var: "e", Catch: hs.Blk(nil)})}
 	}
 	main := hs.Fn("main", nil, hs.Blk(nil,
 		hs.LetS("total", hs.I(0)),
